@@ -56,6 +56,20 @@ func dispatch(cmd string, args []string) int {
 		return cmdDev(args)
 	case "check":
 		return cmdCheck(args)
+	case "msg":
+		return cmdMsg(args)
+	case "bootstrap":
+		V, err := LoadVerifier(envOr("VERIF_REPO", "/repo"), envOr("VERIF_DIR", "/verif"))
+		if err != nil {
+			fmt.Fprintln(os.Stderr, err)
+			return 2
+		}
+		loadPrelude(envOr("VERIF_DIR", "/verif"))
+		if err := V.Bootstrap(args[0]); err != nil {
+			fmt.Fprintln(os.Stderr, err)
+			return 2
+		}
+		return 0
 	}
 	fmt.Fprintln(os.Stderr, "unknown command", cmd)
 	return 2
@@ -190,3 +204,98 @@ func cmdDev(args []string) int {
 func cmdCheck(args []string) int { return 2 }
 
 var _ = ssa.BuilderMode(0)
+
+func cmdMsg(args []string) int {
+	fs := flag.NewFlagSet("msg", flag.ExitOnError)
+	runs := fs.String("runs", "ok,safe,toolong,rt,decsafe,re,repeat", "which runs")
+	dump := fs.String("dump", "", "dump SMT of obligations whose name contains this")
+	timeout := fs.Int("t", 10, "solver timeout")
+	verbose := fs.Bool("v", false, "list every obligation")
+	segs := fs.Bool("segs", false, "print extracted format")
+	fs.Parse(args)
+	V, err := LoadVerifier(envOr("VERIF_REPO", "/repo"), envOr("VERIF_DIR", "/verif"))
+	if err != nil {
+		fmt.Fprintln(os.Stderr, err)
+		return 2
+	}
+	if err := loadPrelude(envOr("VERIF_DIR", "/verif")); err != nil {
+		fmt.Fprintln(os.Stderr, err)
+		return 2
+	}
+	V.tableMode = "pinned"
+	cfg := &solveCfg{timeout: *timeout, seed: 0, scratch: scratchDir(), parallel: 14}
+	defer os.RemoveAll(cfg.scratch)
+	want := map[string]bool{}
+	for _, r := range strings.Split(*runs, ",") {
+		want[r] = true
+	}
+	rc := 0
+	tot, okc := 0, 0
+	t0 := time.Now()
+	for _, mt := range V.messageTypes() {
+		sel := false
+		for _, a := range fs.Args() {
+			if a == "all" || a == mt.Name || strings.HasPrefix(mt.Name, a) {
+				sel = true
+			}
+		}
+		if !sel {
+			continue
+		}
+		var obs []*Obligation
+		enc := V.EncodeOK(mt, []string{"C01"})
+		if want["ok"] {
+			obs = append(obs, enc.Obs...)
+		}
+		if *segs {
+			for i, p := range enc.Paths {
+				fmt.Printf("  %s path %d cond=%v\n", mt.Name, i+1, p.Cond)
+				for _, s := range describeSegs(p.Segs) {
+					fmt.Println("     ", s)
+				}
+			}
+		}
+		if want["safe"] {
+			obs = append(obs, V.EncodeSafe(mt, []string{"C17"})...)
+		}
+		if want["toolong"] {
+			obs = append(obs, V.EncodeTooLong(mt, []string{"C18"})...)
+		}
+		if want["rt"] {
+			obs = append(obs, V.DecodeRT(mt, enc, []string{"C01"})...)
+		}
+		if want["decsafe"] {
+			obs = append(obs, V.DecodeSafe(mt, []string{"C09"})...)
+		}
+		if want["re"] {
+			obs = append(obs, V.DecodeRE(mt, []string{"C08"})...)
+		}
+		if want["repeat"] {
+			obs = append(obs, V.EncodeRepeat(mt, enc, []string{"C06"})...)
+		}
+		dischargeAll(obs, cfg)
+		n, k := 0, 0
+		for _, o := range obs {
+			n++
+			if o.Discharged() {
+				k++
+			}
+			if *verbose || !o.Discharged() {
+				fmt.Printf("  %-8s %-10s %5.2fs %s   -- %s\n", o.Status, o.Backend, o.Seconds, o.Name, o.Detail)
+			}
+			if !o.Discharged() {
+				rc = 1
+			}
+			if *dump != "" && strings.Contains(o.Name, *dump) {
+				f := filepath.Join("/tmp", sanitize(o.Name)+".smt2")
+				os.WriteFile(f, []byte(o.SMTBody()), 0o644)
+				fmt.Println("   dumped", f)
+			}
+		}
+		tot += n
+		okc += k
+		fmt.Printf("%s: %d/%d\n", mt.Name, k, n)
+	}
+	fmt.Printf("TOTAL %d/%d in %.1fs\n", okc, tot, time.Since(t0).Seconds())
+	return rc
+}
